@@ -845,6 +845,11 @@ func Compare(refTree *Tree, compTrees <-chan Trees, tips, comparetreeidentical b
 									common++
 								}
 							}
+							// Every branch of the compared tree is in the reference tree:
+							// the trees are the same only if the converse also holds
+							if sametree && total != common {
+								sametree = false
+							}
 						}
 					}
 				}
